@@ -937,6 +937,17 @@ func writeEvidence(prop *Prop, tier string, base uint64, a *agg, wall float64, v
 		cov["ordered_site_pairs_seen"] = len(a.pairSet)
 		if b, err := os.ReadFile(os.Getenv("VERIF_SITES_FILE")); err == nil {
 			cov["yield_sites_woven"] = len(strings.Split(strings.TrimSpace(string(b)), "\n"))
+			// which statements of ch/chpool no run of this batch reached: the blind
+			// spots of the workload, kept beside the evidence (coverage/<id>.unreached)
+			var un []string
+			for _, l := range strings.Split(strings.TrimSpace(string(b)), "\n") {
+				if _, ok := a.siteSet[l]; !ok {
+					un = append(un, l)
+				}
+			}
+			cdir := filepath.Join(outDir(), "coverage")
+			_ = os.MkdirAll(cdir, 0o755)
+			_ = os.WriteFile(filepath.Join(cdir, prop.ID+"."+tier+".unreached"), []byte(strings.Join(un, "\n")+"\n"), 0o644)
 		}
 	}
 	ev := map[string]any{
